@@ -88,6 +88,27 @@ CHECKS = [
         "Does not decide 'exactly 1+min(r,3) transmissions', FIFO or doubling as observed in time.",
         "note": BASE_NOTE,
     },
+    {
+        "id": "C10",
+        "technique": "static analysis: gate dominance in the filter mixin, MRO/who-may-call rules, clause-order and allow-set rules over the filter's decision list",
+        "text": "Decides that delivery and transmission are reachable only on the wanted edge of _is_wanted_addrs (for both src and dst, with the "
+        "sending flag on the send gate), that no path bypasses the gates (MRO order, who may call _pkt_received/_msg_received/write_frame, the "
+        "signature probe being the one named exception), that the block-list test precedes every allow clause, that the clauses exempt from "
+        "known-list enforcement are exactly {active gateway, listed (incl. broadcast/null ids), sending from the placeholder id}, that devices "
+        "are only created under check_filter_lists, and that select_device_filter_mode never switches enforcement on. Does not evaluate the "
+        "full truth table over all configurations.",
+        "note": BASE_NOTE,
+    },
+    {
+        "id": "C11",
+        "technique": "static analysis: who-may-call, decorator-stack and dominance/post-dominance rules over the limiter; constant folding of the rate constants; def-use dependence of the written bytes",
+        "text": "Regulator-in-place only - the numeric bound (bits per window, average spacing) is arithmetic over time and is not decided. Decides "
+        "that nothing reaches serial.write / mqtt publish except through the regulated write_frame (bounded start-up probe excepted), that the "
+        "decorators and the write-gap semaphore are in place and selected by constants in range, that the bucket is refilled before the test, "
+        "the wait precedes the write and the debit post-dominates the write on all exits, that an over-budget MQTT write is dropped (nothing "
+        "queues frames), and that the bytes written depend only on the frame argument.",
+        "note": BASE_NOTE,
+    },
 ]
 
 NOT_APPLICABLE = [
